@@ -132,11 +132,11 @@ package socket
 //@ ghost field (*message).bound bool
 //@ ghost field (*message).headDecoded bool
 //@ func (*message).UnmarshalBody
-//@   property C01
+//@   property C01 C11
 //@   flags libframe frame-unchecked seq
 //@   modifies m.body, allelems(type(byte)), m.#bound
 //@   ghostset m.#bound = true
-//@   ensures[raw-bytes-are-copied-not-aliased] @C01 istype(m.body, type(*[]byte)) && len(bodyBytes) > 0 && result == nil && old(m.body) == m.body && old(base(*as(m.body, type(*[]byte)))) != base(bodyBytes) ==> base(*as(m.body, type(*[]byte))) != base(bodyBytes) && len(*as(m.body, type(*[]byte))) == len(bodyBytes)
+//@   ensures[raw-bytes-are-copied-not-aliased] @C01 @C11 istype(m.body, type(*[]byte)) && len(bodyBytes) > 0 && result == nil && old(m.body) == m.body && old(base(*as(m.body, type(*[]byte)))) != base(bodyBytes) ==> base(*as(m.body, type(*[]byte))) != base(bodyBytes) && len(*as(m.body, type(*[]byte))) == len(bodyBytes)
 //@ iface codec.Codec.Unmarshal
 //@   flags libframe
 //@ iface codec.Codec.Marshal
